@@ -1,8 +1,63 @@
-import Cirbo.Model.Passes
-/-! # C18 (placeholder until the theorems are in)
--- OBLIGATION: c18_placeholder
+import Cirbo.Proofs.Passes
+/-!
+# C18 — Simplification passes achieve their stated effect; pipelines equal sequencing
+
+-- OBLIGATION: c18_rrg_exactly_reachable
+-- OBLIGATION: c18_pipeline_is_sequencing_partial
+-- OBLIGATION: c18_pipe_operator_is_sequencing_partial
+-- OBLIGATION: c18_cleanup_is_sequencing_partial
+-- OBLIGATION: c18_reduction_only_drops_repeated_rrg
+-- PARTIAL: the pipeline theorems are proved from the hypothesis RrgIdem (applying RemoveRedundantGates twice equals applying it once, as a statement about the model); that hypothesis itself, and the postconditions of MergeDuplicateGates (no two gates with the same signature), MergeEquivalentGates (no two non-input gates with the same truth table) and MergeUnaryOperators (no NOT of NOT / no buffer as operand or output) are decided on every run by the search over the real passes plus the one-to-one model correspondence; their theorems are not proved yet.
 -/
 namespace Cirbo
-theorem c18_placeholder : True := trivial
-#print axioms c18_placeholder
+
+/-- `RemoveRedundantGates` returns exactly the gates reachable from the outputs, plus all inputs
+unless their removal was requested; every returned gate is a gate of the argument, unchanged. -/
+theorem c18_rrg_exactly_reachable {allow : Bool} {c c' : Circuit} (hw : WFS c) (hne : c.gates ≠ [])
+    (h : rrg allow c = .ok c') :
+    (∀ g ∈ c'.gates, g ∈ c.gates) ∧
+    (∀ l, l ∈ c'.labels ↔ Reach c.opsOf c.outputs l ∨ (allow = false ∧ l ∈ c.inputs)) := by
+  obtain ⟨_, b, _, _, _, _, _, g⟩ := rrg_spec hw h
+  exact ⟨b, g hne⟩
+
+/-- the only difference between what `apply_transformers` runs and the plain linearisation is the
+removal of a `RemoveRedundantGates` directly following an equal one -/
+theorem c18_reduction_only_drops_repeated_rrg (t p : Tr) (r : List Tr) :
+    reduceIdem (some p) (t :: r) =
+      if sameIdem t p then reduceIdem (some p) r else t :: reduceIdem (some t) r := by
+  simp [reduceIdem]
+
+/-- applying a list of passes = applying the constituent passes one after another (each merging
+pass followed by its implied `RemoveRedundantGates()`), given idempotence of the latter -/
+theorem c18_pipeline_is_sequencing_partial (H : RrgIdem) (c : Circuit) (ts : List Tr) :
+    applyTransformers c ts = runSeq (.ok c) (linearize.linearizeList ts) :=
+  applyTransformers_eq_seq H c ts
+
+/-- `t1 | t2` runs `t1`, then `t2` -/
+theorem c18_pipe_operator_is_sequencing_partial (H : RrgIdem) (a b : Tr) (c : Circuit) :
+    applyTransformers c [a.or b] = runSeq (runSeq (.ok c) (linearize a)) (linearize b) := by
+  rw [applyTransformers_eq_seq H]
+  simp only [linearize.linearizeList, List.append_nil]
+  exact or_eq_seq H a b _
+
+/-- `cleanup` = RRG, MUO, RRG, MDG, RRG (then MEG, RRG when heavy) -/
+theorem c18_cleanup_is_sequencing_partial (H : RrgIdem) (c : Circuit) (heavy : Bool) :
+    cleanup c heavy = runSeq (.ok c)
+      ([.rrg false, .muo, .rrg false, .mdg, .rrg false] ++ (if heavy then [.meg, .rrg false] else [])) :=
+  cleanup_eq_seq H c heavy
+
+/-! Non-vacuity -/
+open GateType in
+def c18Example : R Circuit := runOps Circuit.empty
+    [.addInputs ["a", "b", "u"], .addGate ⟨"x", AND, ["a", "b"]⟩, .addGate ⟨"d", OR, ["a", "u"]⟩,
+     .setOutputs ["x"]]
+example : ((c18Example >>= rrg false).toOption.map fun c => c.labels) = some ["b", "a", "x", "u"] := by decide
+example : ((c18Example >>= rrg false >>= rrg false).toOption.map fun c => c.labels) = some ["b", "a", "x", "u"] := by decide
+
+#print axioms c18_rrg_exactly_reachable
+#print axioms c18_pipeline_is_sequencing_partial
+#print axioms c18_pipe_operator_is_sequencing_partial
+#print axioms c18_cleanup_is_sequencing_partial
+#print axioms c18_reduction_only_drops_repeated_rrg
+
 end Cirbo
